@@ -536,8 +536,118 @@ let run_roundtrip (payload : string) : string =
        | M.MFuel -> "fuel")
   | _ -> failwith "bad roundtrip payload"
 
+(* marshal a value held in an interface{} variable (refmt.Marshal(x)): Bind sees the dynamic value *)
+let marshal_dynamic env atl (x : M.gval) : M.mres =
+  match x with
+  | M.VAny (Some (dt, dv)) -> M.marshal_top env atl dt dv
+  | M.VAny None -> M.MOk [ { M.tv = M.Null; M.tag = None } ]
+  | _ -> M.MErr []
+
+let unmarshal_all env atl ty fmt bs : M.gval option =
+  match decode_tokens fmt bs with
+  | None -> None
+  | Some toks ->
+      (match M.unmarshal_top env atl ty toks with
+       | M.UTDone (n, x) when int_of_nat n = List.length toks -> Some x
+       | _ -> None)
+
+(* remarshal: same payload as roundtrip *)
+let run_remarshal (payload : string) : string =
+  let i = String.index payload ';' in
+  let head = String.sub payload 0 i and rest = String.sub payload (i + 1) (String.length payload - i - 1) in
+  let fmt, opts = match split_ws head with
+    | [f; l; ind; o] -> (f, (opt_bytes l, opt_bytes ind, o)) | _ -> failwith "bad remarshal head" in
+  match parse_sx rest with
+  | [e; a; t; v] ->
+      let env = env_of e and atl = atlas_of a and ty = gtype_of t in
+      let enc r = match r with M.MOk toks -> encode_tokens fmt opts toks | _ -> None in
+      (match enc (M.marshal_top env atl ty (gval_of v)) with
+       | None -> "err1"
+       | Some d ->
+         (match unmarshal_all env atl M.GAny fmt d with
+          | None -> "err2 d=" ^ hex_or_dash d
+          | Some x ->
+            (match enc (marshal_dynamic env atl x) with
+             | None -> "err3 d=" ^ hex_or_dash d
+             | Some d1 ->
+               (match unmarshal_all env atl ty fmt d1 with
+                | None -> Printf.sprintf "err4 d=%s d1=%s" (hex_or_dash d) (hex_or_dash d1)
+                | Some back ->
+                  (match unmarshal_all env atl M.GAny fmt d1 with
+                   | None -> "err5"
+                   | Some x1 ->
+                     (match enc (marshal_dynamic env atl x1) with
+                      | None -> "err6"
+                      | Some d2 ->
+                          Printf.sprintf "ok d=%s d1=%s back=%s fix=%d" (hex_or_dash d) (hex_or_dash d1) (print_gval back)
+                            (if d1 = d2 then 1 else 0)))))))
+  | _ -> failwith "bad remarshal payload"
+
+(* clone: "<env> <atlas> <type> <value>": the marshaller's tokens fed straight to the unmarshaller *)
+let run_clone (payload : string) : string =
+  match parse_sx payload with
+  | [e; a; t; v] ->
+      let env = env_of e and atl = atlas_of a and ty = gtype_of t in
+      (match M.marshal_top env atl ty (gval_of v) with
+       | M.MOk toks ->
+           (match M.unmarshal_top env atl ty toks with
+            | M.UTDone (n, x) when int_of_nat n = List.length toks -> "ok " ^ print_gval x
+            | _ -> "err")
+       | _ -> "err")
+  | _ -> failwith "bad clone payload"
+
+(* cbor-tags: "<env> <atlas> | <hex>" *)
+let run_cbor_tags (payload : string) : string =
+  let i = String.index payload '|' in
+  let head = String.sub payload 0 i and hx = String.trim (String.sub payload (i + 1) (String.length payload - i - 1)) in
+  match parse_sx head with
+  | [e; a] ->
+      let bs = if hx = "-" then [] else bytes_of_hex hx in
+      (match M.dec_run false bs with
+       | M.DOk (toks, _, _) ->
+           (match M.unmarshal_top (env_of e) (atlas_of a) M.GAny toks with
+            | M.UTDone (n, x) when int_of_nat n = List.length toks -> "ok " ^ print_gval x
+            | _ -> "err")
+       | _ -> "err")
+  | _ -> failwith "bad cbor-tags payload"
+
+(* history: "<c|j> ; <env> <atlas> ; (it T V) ..." *)
+let run_history (payload : string) : string =
+  match String.split_on_char ';' payload with
+  | f :: hd :: rest ->
+      let fmt = String.trim f in
+      let items = parse_sx (String.concat ";" rest) in
+      (match parse_sx hd with
+       | [e; a] ->
+           let env = env_of e and atl = atlas_of a in
+           let opts = (None, None, "-") in
+           let its = List.map (function L [A "it"; t; v] -> (gtype_of t, gval_of v) | _ -> failwith "bad item") items in
+           let ms = List.map (fun (t, v) ->
+               match M.marshal_top env atl t v with
+               | M.MOk toks -> (match encode_tokens fmt opts toks with Some bs -> Some (t, v, bs) | None -> None)
+               | _ -> None) its in
+           let mouts = List.map (function Some (_, _, bs) -> "m:" ^ hex_or_dash bs | None -> "merr") ms in
+           let uouts = List.filter_map (function
+               | Some (t, _, bs) ->
+                   Some (match unmarshal_all env atl t fmt bs with Some x -> "u:" ^ print_gval x | None -> "uerr")
+               | None -> None) ms in
+           let couts = List.map (fun (t, v) ->
+               match M.marshal_top env atl t v with
+               | M.MOk toks ->
+                   (match M.unmarshal_top env atl t toks with
+                    | M.UTDone (n, x) when int_of_nat n = List.length toks -> "c:" ^ print_gval x
+                    | _ -> "cerr")
+               | _ -> "cerr") its in
+           String.concat " ;; " (mouts @ uouts @ couts)
+       | _ -> failwith "bad history header")
+  | _ -> failwith "bad history payload"
+
 let dispatch (suite : string) (payload : string) : string =
   match suite with
+  | "remarshal" -> run_remarshal payload
+  | "clone" -> run_clone payload
+  | "cbor-tags" -> run_cbor_tags payload
+  | "history" -> run_history payload
   | "roundtrip" -> run_roundtrip payload
   | "obj-marshal" -> run_obj_marshal payload
   | "obj-unmarshal" -> run_obj_unmarshal payload
